@@ -9,10 +9,13 @@ CONSTANTS
   DEV_PickleNoRebuild = FALSE
   DEV_AddRebuildsFirst = FALSE
   DEV_DeferredRemoveKeepsPolygon = FALSE
+  DEV_ForkSharesLanelets = FALSE
+  ForkAll = FALSE
   DEV_DiscHalfRadius = FALSE
 INVARIANT TypeOK
 INVARIANT IndexMirrors
 INVARIANT BufMirrors
+INVARIANT OriginalIsolated
 INVARIANT DirtyOnlyPending
 INVARIANT QueriesExact
 INVARIANT LawsPoint
